@@ -260,6 +260,9 @@ def Cp.rCache (s : Cp) : Cp × Bool :=
   | m :: rest =>
     match m.k with
     | .flush =>
+      -- the last acknowledgement of a regular flush stays in the port while the answer does not fit into ToDriver
+      -- (`numCacheACK == 1 && !shootDownInProcess && !ToDriver.CanSend()` → `return false`)
+      if s.numCache = 1 && !s.shoot && !(s.drvOut.length < s.capDrv) then (s, false) else
       let n := dec s.numCache
       let s := { s with numCache := n, cacheIn := rest }
       if n = 0 then
